@@ -41,9 +41,9 @@ def make_dataset(ctx, e2e, rng, name, i, big=False):
     return ds, cfg, wd, path
 
 
-def canonical(ctx, wd, path, seed=0):
+def canonical(ctx, wd, path, seed=0, tag=""):
     """Values and files from a fresh process."""
-    aux = wd.rstrip(os.sep) + "-aux"
+    aux = wd.rstrip(os.sep) + "-aux" + tag
     os.makedirs(aux, exist_ok=True)
     out = os.path.join(aux, "canon.json")
     outdir = os.path.join(aux, "canon-out")
@@ -161,7 +161,38 @@ def _subprocess_histories(ctx, e2e):
 
 
 OPS = ["construct-A", "construct-B", "read-A", "read-B", "reread-A", "reread-B", "write-A", "write-B", "construct-C", "fill-table", "read-C",
-       "override-A", "override-B"]
+       "override-A", "override-B", "construct-D", "read-D", "write-D", "construct-D", "read-D"]
+VARIANTS = ["volume_ratio", "order", "T_MIN", "interpolator", "NT", "DT", "P_MIN"]
+
+
+def variant_settings(rng, ds, cfg, what):
+    """The settings of data set A with ONE entry changed (D = same input files, nearly the same calculation)."""
+    c = copy.deepcopy(cfg)
+    qs, mg = c["qha"]["settings"], c["elast"]["settings"]["mode_gamma"]
+    if what == "volume_ratio":
+        qs["volume_ratio"] = {1.05: 1.2, 1.2: 1.4, 1.4: 1.5}.get(qs["volume_ratio"], qs["volume_ratio"] + 0.1)
+    elif what == "order":
+        others = [o for o in WF.admissible_orders(mg["interpolator"], ds.nv) if o != mg["order"]]
+        if not others:
+            return variant_settings(rng, ds, cfg, "volume_ratio")
+        mg["order"] = int(rng.choice(others))
+    elif what == "interpolator":
+        cands = [(m, o) for m in WF.INTERPOLATORS if m != mg["interpolator"] for o in WF.admissible_orders(m, ds.nv) if o == mg["order"]] or \
+                [(m, WF.admissible_orders(m, ds.nv)[0]) for m in WF.INTERPOLATORS if m != mg["interpolator"] and WF.admissible_orders(m, ds.nv)]
+        mg["interpolator"], mg["order"] = cands[int(rng.integers(0, len(cands)))]
+        mg["order"] = int(mg["order"])
+    elif what == "T_MIN":
+        qs["T_MIN"] = float(qs["T_MIN"]) + float(qs["DT"]) / 2
+    elif what == "NT":
+        qs["NT"] = int(qs["NT"]) + 1
+    elif what == "DT":
+        qs["DT"] = float(qs["DT"]) * 0.5
+        qs["DT_SAMPLE"] = qs["DT"]
+    elif what == "P_MIN":
+        qs["P_MIN"] = float(qs["P_MIN"]) + 0.25 * float(qs["DELTA_P"])
+        qs["DELTA_P"] = float(qs["DELTA_P"]) * 0.97
+        qs["DELTA_P_SAMPLE"] = qs["DELTA_P"]
+    return c
 
 
 def _inprocess_histories(ctx, e2e):
@@ -204,6 +235,19 @@ def _inprocess_histories(ctx, e2e):
                 continue
             canon["C"] = canon["A"]
             paths = {"A": A[3], "B": B[3], "C": A[3]}
+            # D: the input files of A with one setting changed - whatever an earlier calculation on the same files left behind
+            # (interpolated modes, grids, fits) must not leak into it
+            what = VARIANTS[g % len(VARIANTS)]
+            cfgD = variant_settings(rng, A[0], A[1], what)
+            paths["D"] = WF.write_dataset(A[0], cfgD, A[2], settings_name="settings-variant.yaml")
+            canon["D"], errD = canonical(ctx, A[2], paths["D"], seed=int(rng.integers(0, 1000)), tag="-variant")
+            if canon["D"] is None:
+                if "PRESSURE" in (errD or "").upper():
+                    ctx.count("variant_out_of_pressure_range")
+                else:
+                    ctx.violation("fresh-process-run-fails:variant", f"canonical run of the {what} variant failed: {errD}", case_id, {"config": cfgD})
+            else:
+                ctx.count("variant_settings:" + what)
             for h in range(group):
                 hid = f"{case_id}-h{h}"
                 e2e.current["id"] = hid
@@ -211,6 +255,10 @@ def _inprocess_histories(ctx, e2e):
                 nops = int(rng_h.integers(6, 16))
                 ops = ["construct-A" if rng_h.random() < 0.5 else "construct-B"]
                 ops += [str(rng_h.choice(OPS)) for _ in range(nops)]
+                if canon["D"] is None:
+                    ops = [o for o in ops if not o.endswith("-D")]
+                elif h % 2 == 0:          # every second history: A first, then the variant straight away
+                    ops = ["construct-A", "read-A", "construct-D", "read-D", "write-D"] + ops[1:]
                 calcs = {}
                 order = []
                 state0 = (copy.deepcopy(rw.DEFAULT_WRITER_RULES), len(cu.units._units), copy.deepcopy(qha.settings.DEFAULT_SETTINGS))
